@@ -18,6 +18,11 @@ MCPair   == {[sp |-> <<"a", "">>, id |-> 1, kind |-> "file"], [sp |-> <<"a", "b"
              [sp |-> <<"c", "", "d">>, id |-> 1, kind |-> "file"], [sp |-> <<"a", "b", "e">>, id |-> 2, kind |-> "file"]}
 MCArgs   == {<<>>} \cup {<<e>> : e \in MCEnts} \cup {<<e, f>> : e \in MCPair, f \in MCPair}
             \cup {<<e, [e EXCEPT !.id = 3 - e.id]>> : e \in MCPair}
+\* ... and path strings (for the operations that only need keys): any one spelling, an entry plus a
+\* string naming the same key, two spellings of one key
+MCStr(sp) == [sp |-> sp, id |-> 0, kind |-> "str"]
+MCArgsS  == {<<MCStr(sp)>> : sp \in MCSpells} \cup {<<e, MCStr(e.sp)>> : e \in MCPair}
+            \cup {<<MCStr(<<"a">>), MCStr(<<"a", "">>)>>, <<MCStr(<<"a", ".", "b">>), MCStr(<<"a", "b">>), MCStr(<<"c", "d">>)>>}
 MCOld    == {<<>>, <<"a">>, <<"a", "">>, <<"c">>, <<"a", "", "b">>}
 MCNew    == {<<>>, <<"c">>, <<"a", "", "b">>, <<"c", "..", "a">>}
 DirId    == 9
@@ -32,6 +37,8 @@ Actions ==
        {A("add", "entry", e.sp, e.id, <<>>, <<>>, <<>>, FALSE) : e \in MCEnts}
   \cup {A(op, "str", s, 1, <<>>, <<>>, <<>>, FALSE) : op \in ByKey, s \in MCSpells}
   \cup {A(op, "set", <<>>, 1, arg, <<>>, <<>>, FALSE) : op \in BinUpd \cup Tests \cup {"update"}, arg \in MCArgs}
+  \cup {A(op, "list", <<>>, 1, arg, <<>>, <<>>, FALSE) : op \in KeyOnly \ {"difference"}, arg \in MCArgsS}
+  \cup {A("difference", "list", <<>>, 1, arg, <<>>, <<>>, ad) : arg \in MCArgsS, ad \in BOOLEAN}
   \cup {A(op, "set", <<>>, 1, arg, <<>>, <<>>, ad) : op \in BinPure, arg \in MCArgs, ad \in BOOLEAN}
   \cup {A("change_offset", "-", <<>>, 1, <<>>, o, n, ad) : o \in MCOld, n \in MCNew, ad \in BOOLEAN}
   \cup {A("insert_offset", "-", <<>>, 1, <<>>, <<>>, n, ad) : n \in MCNew, ad \in BOOLEAN}
